@@ -265,6 +265,17 @@ def annotate(cell, vcmp):
         out.append({'args': {k: lk[k] for k in ('names', 'required', 'version', 'allow', 'fallback')},
                     'required': True if lk['required'] is None else lk['required'], 'version': lk['version'],
                     'expect': None, 'state_changed_since_first': changed})
+    # "once one of the names has been found, all other names ... return the same value": a later lookup of a subset
+    # of the names of an earlier one (same constraints), in build files where nobody overrides anything explicitly
+    plain = not any(op[0] == 'O' for op in cell['ops']) and not any(sd['overrides'] for _, sd in cell['subs'])
+    if plain:
+        for j in range(len(out)):
+            nj = [n for n in out[j]['args']['names'] if n]
+            for i in range(j):
+                ni = [n for n in out[i]['args']['names'] if n]
+                if nj and set(nj) <= set(ni) and len(set(ni)) == len(ni) and out[i]['version'] == out[j]['version']:
+                    out[j]['alias_of'] = i
+                    break
     if c is not None and out:
         w = c['wanted']
         c['vok'] = lambda v: (not w) or (v != 'undefined' and vcmp(v, w))
@@ -285,17 +296,21 @@ def base_lookup(name='foo', required=True, version=(), allow=None, fallback=None
     return {'names': [name], 'required': required, 'version': list(version), 'allow': allow, 'fallback': fallback}
 
 
+def varname(n):
+    return re.sub('[^a-z0-9_]', '_', n.lower()) + '_dep'
+
+
 def sub_providing(kind, ver='2.0', name='foo'):
     """kind: 'override' (meson.override_dependency) | 'var' | 'both' | 'none' | 'fails' | 'notfound' | 'other'"""
     sd = {'fails': kind == 'fails', 'overrides': [], 'vars': [('unrelated', 'I9.9')]}
     if kind in ('override', 'both', 'fails'):
         sd['overrides'].append((name, 'I' + ver))
     if kind in ('var', 'both'):
-        sd['vars'].append((name + '_dep', 'I' + (ver if kind == 'var' else '0.1')))
+        sd['vars'].append((varname(name), 'I' + (ver if kind == 'var' else '0.1')))
     if kind == 'notfound':
-        sd['vars'].append((name + '_dep', 'N'))
+        sd['vars'].append((varname(name), 'N'))
     if kind == 'other':
-        sd['vars'].append((name + '_dep', 'X'))
+        sd['vars'].append((varname(name), 'X'))
     return sd
 
 
@@ -382,6 +397,15 @@ def corner_cells():
         ('L', {'names': ['foo', 'bar'], 'required': True, 'version': [], 'allow': None, 'fallback': None}),
         ('L', base_lookup('foo')), ('L', base_lookup('bar'))]}
     cs.append(c)
+    c = {'wrap_mode': 'default', 'fff': [], 'sys': [], 'wraps': [], 'subs': [('sub', sub_providing('var', '2.0'))], 'ops': [
+        ('L', {'names': ['bar', 'foo'], 'required': False, 'version': [], 'allow': None, 'fallback': ['sub', 'foo_dep']}),
+        ('L', base_lookup('bar', required=False)), ('L', base_lookup('foo', required=True))]}
+    cs.append(c)
+    c = {'wrap_mode': 'forcefallback', 'fff': [], 'sys': [('foo', '1.0'), ('bar', '2.0')],
+         'wraps': [{'name': 'sub', 'file': True, 'entries': [('bar', 'foo_dep')]}], 'subs': [('sub', sub_providing('var', '3.0'))], 'ops': [
+        ('L', {'names': ['foo', 'bar'], 'required': True, 'version': ['>=1'], 'allow': None, 'fallback': None}),
+        ('L', base_lookup('foo', version=['>=1'])), ('L', base_lookup('bar', version=['>=1']))]}
+    cs.append(c)
     # duplicate / malformed names
     c = {'wrap_mode': 'default', 'fff': [], 'sys': [('foo', '1.0')], 'wraps': [], 'subs': [], 'ops': [
         ('L', {'names': ['foo', 'foo'], 'required': False, 'version': [], 'allow': None, 'fallback': None})]}
@@ -429,8 +453,8 @@ def random_cell(rng):
                             rng.random() < 0.5, rng.choice([None, None, True, False]),
                             subkind=rng.choice(['both', 'override', 'var', 'none', 'fails', 'notfound', 'other']),
                             subver=rng.choice(VERS + ['undefined', '1.5']), nlook=rng.choice([1, 1, 2, 3]))
-    # free-form build file over two names and two subprojects
-    names = ['foo', 'bar']
+    # free-form build file over two names and two subprojects; names with case, dots, dashes, plus signs
+    names = rng.choice([['foo', 'bar'], ['foo', 'bar'], ['Foo', 'bar'], ['foo-2.0', 'lib_x.y'], ['gtk+-3.0', 'foo'], ['a', 'B']])
     cell = {'wrap_mode': rng.choice(WRAP_MODES), 'fff': rng.choice([[], [], ['foo'], ['sub'], ['bar', 'sub2']]),
             'sys': [(n, rng.choice(VERS)) for n in names if rng.random() < 0.4], 'wraps': [], 'subs': [], 'ops': []}
     provided = set()
@@ -447,7 +471,7 @@ def random_cell(rng):
                 for n in names:
                     if n not in provided and rng.random() < 0.6:
                         provided.add(n)
-                        ents.append((n, None if rng.random() < 0.5 else n + '_dep'))
+                        ents.append((n.lower(), None if rng.random() < 0.5 else varname(n)))
                 ents.sort(key=lambda kv: kv[1] is not None)
                 cell['wraps'].append({'name': s, 'file': True, 'entries': ents})
     nops = rng.randint(1, 5)
@@ -459,10 +483,12 @@ def random_cell(rng):
             cell['ops'].append(('P', rng.choice(['sub', 'sub2']), rng.random() < 0.2))
         else:
             nm = rng.sample(names, rng.choice([1, 1, 1, 2]))
+            if rng.random() < 0.06:
+                nm = nm + ['']                      # dependency('foo', '') : the empty name is dropped
             fb = None
             al = rng.choice([None, None, True, False])
             if rng.random() < 0.35:
-                fb = rng.choice([['sub'], ['sub', nm[0] + '_dep'], ['sub2', nm[0] + '_dep'], [], ['sub', 'unrelated']])
+                fb = rng.choice([['sub'], ['sub', varname(nm[0])], ['sub2', varname(nm[0])], [], ['sub', 'unrelated']])
                 if rng.random() < 0.9:
                     al = None
             lk = {'names': nm, 'required': rng.random() < 0.35, 'version': rng.choice(CONSTRAINTS + [['>=1.0', '<2.2']]),
@@ -475,13 +501,35 @@ def random_cell(rng):
     return cell
 
 
+PRODUCT_DIMS = [[None] + VERS, CONSTRAINTS, FBKINDS, ['default', 'nofallback', 'forcefallback', 'nodownload'],
+                [[], ['foo'], ['sub']], [True, False], [None, True, False]]
+
+
 def full_product():
-    out = []
-    for sysv, cons, fb, wm, fff, req, allow in itertools.product(
-            [None] + VERS, CONSTRAINTS, FBKINDS, ['default', 'nofallback', 'forcefallback', 'nodownload'],
-            [[], ['foo'], ['sub']], [True, False], [None, True, False]):
-        out.append(product_cell(sysv, cons, fb, wm, fff, req, allow))
-    return out
+    return [product_cell(*t) for t in itertools.product(*PRODUCT_DIMS)]
+
+
+def pairwise_sample(rng, n):
+    """A sample of the cross product in which every pair of values of two different dimensions occurs
+    (greedy covering array), filled up with random cells to n."""
+    tuples = list(itertools.product(*[range(len(d)) for d in PRODUCT_DIMS]))
+    need = set()
+    k = len(PRODUCT_DIMS)
+    for a in range(k):
+        for b in range(a + 1, k):
+            for x in range(len(PRODUCT_DIMS[a])):
+                for y in range(len(PRODUCT_DIMS[b])):
+                    need.add((a, x, b, y))
+    pairs_of = lambda t: {(a, t[a], b, t[b]) for a in range(k) for b in range(a + 1, k)}
+    chosen = []
+    while need and len(chosen) < n:
+        pool = rng.sample(tuples, 120)
+        best = max(pool, key=lambda t: len(pairs_of(t) & need))
+        chosen.append(best)
+        need -= pairs_of(best)
+    while len(chosen) < n:
+        chosen.append(rng.choice(tuples))
+    return [product_cell(*[PRODUCT_DIMS[i][j] for i, j in enumerate(t)]) for t in chosen], len(need)
 
 
 # =================================================================================== wraps
@@ -799,16 +847,18 @@ def run(ctx):
     # ------------------------------------------------------------------ lookups through `meson setup`
     cells = corner_cells()
     ncorner = len(cells)
-    prod = full_product()
     if thorough:
-        cells += prod
+        cells += full_product()
         ctx.extra['lookup_product_exhaustive'] = True
     else:
-        cells += rng.sample(prod, 55)
+        pw, uncovered = pairwise_sample(rng, 55)
+        cells += pw
         ctx.extra['lookup_product_exhaustive'] = False
-    cells += [random_cell(rng) for _ in range(600 if thorough else 50)]
+        ctx.extra['lookup_product_pairwise_uncovered_pairs'] = uncovered
+    cells += [random_cell(rng) for _ in range(400 if thorough else 50)]
     scratch = ctx.mkscratch()
-    results = pmap(run_cell, [(c, os.path.join(scratch, 'c%d' % i)) for i, c in enumerate(cells)])
+    # every fourth project lives under a path with a blank and a non-ASCII letter
+    results = pmap(run_cell, [(c, os.path.join(scratch, ('c %d \u00fc' if i % 4 == 3 else 'c%d') % i)) for i, c in enumerate(cells)])
     mark('lookup_cli')
     if any(st == 'CRASHtimeout' for _, st, _ in results):
         raise HarnessError('meson setup timed out twice on %d cells (machine overloaded?)' % sum(1 for _, st, _ in results if st == 'CRASHtimeout'))
@@ -840,7 +890,7 @@ def run(ctx):
     nexpect = sum(1 for oc in ocells if oc['lookups'] and oc['lookups'][0]['expect'] is not None)
     for c, fs in zip(cells, ofails):
         for f in fs:
-            if f['kind'] == 'repeat-lookup-differs' and any(v == 'undefined' for _, v in c['sys']):
+            if f['kind'] in ('repeat-lookup-differs', 'name-of-found-lookup-not-aliased') and any(v == 'undefined' for _, v in c['sys']):
                 ident = 'C10:repeat-lookup-differs:system-version-undefined'
             else:
                 ident = 'C10:lookup:%s:%s' % (f['kind'], json.dumps(c, sort_keys=True))
@@ -857,7 +907,7 @@ def run(ctx):
     ctx.count('undefined-cell')
     fs = run_impl('c10.py', {'lookup_oracle': [{'lookups': annotate(und, vcmp), 'observed': obs, 'status': status}]})['lookup_oracle'][0]
     for f in fs:
-        if f['kind'] == 'repeat-lookup-differs':
+        if f['kind'] in ('repeat-lookup-differs', 'name-of-found-lookup-not-aliased'):
             ctx.violation('C10:repeat-lookup-differs:system-version-undefined',
                           'repeated dependency() differs: ' + json.dumps(f), {'cell': und, 'failure': f})
         elif f['kind'] != 'policy':
@@ -901,6 +951,9 @@ def run(ctx):
 
     # ------------------------------------------------------------------ wraps: Resolver in-process
     base = wrap_corner() + [wrap_random(rng) for _ in range(1500 if thorough else 150)]
+    for sc in base:                          # a quarter of the scenarios live under a path with a blank, a '%' and a non-ASCII letter
+        if rng.random() < 0.25:
+            sc['hostile_path'] = True
     bres = run_wrap_batch(ctx, base)
     mark('wrap_base')
     # a fault of either class at every primitive step of the first run, then a clean second run
